@@ -10,7 +10,7 @@ import mirdump
 from mirparse import parse_mir
 import engine as E
 from engine import *
-import models_std, models_tok, models_syn, models_desc, models_ex
+import models_std, models_tok, models_syn, models_desc, models_ex, models_more
 from engine_fast import FastEngine
 
 REPO = mirdump.REPO
@@ -159,6 +159,12 @@ def write_evidence(pid, tier, seed, coverage, assumptions, wall, violations):
     json.dump(ev, open(p + ".tmp", "w"), indent=1, default=str); os.replace(p + ".tmp", p)
 
 def main(check):
+    try: _main(check)
+    except SystemExit: raise
+    except BaseException as e:
+        print("INCONCLUSIVE property=%s: internal error of the checker: %s\n%s" % (check.ID, e, traceback.format_exc()[-2500:])); sys.exit(2)
+
+def _main(check):
     """check: module-like object with ID, CRATES, families(eng, tier, seed), confirm(violation, real_results),
     optional classify(violation) -> finding key, ASSUMPTIONS, BOUNDS, OUTSIDE, MODELS, FUNCTIONS."""
     import argparse
@@ -200,8 +206,6 @@ def main(check):
         for k, v in s["outcomes"].items(): allout[k] = allout.get(k, 0) + v
     for w in gw:
         if not allout.get(w): missing.append("global: outcome %r never reached" % w)
-    if missing:
-        print("INCONCLUSIVE property=%s: vacuity guard: %s" % (pid, "; ".join(missing[:5]))); sys.exit(2)
     # engine-vs-real differential validation on sampled concrete instances of explored paths
     K = getattr(check, "VALIDATE_K", {"quick": 40, "thorough": 200})[tier]
     rnd = random.Random(seed); validate.sort(key=lambda c: json.dumps(c, sort_keys=True, default=str))
@@ -287,5 +291,7 @@ def main(check):
             print("VIOLATION property=%s replay=%s" % (pid, p))
             print("  " + v["what"][:500])
         sys.exit(1)
+    if missing:
+        print("INCONCLUSIVE property=%s: vacuity guard: %s" % (pid, "; ".join(missing[:5]))); sys.exit(2)
     log("OK: %d paths, all obligations discharged (%d known finding(s) listed)" % (paths, len(known_hits)))
     sys.exit(0)
